@@ -85,6 +85,10 @@ var conjunctSuffix = regexp.MustCompile(`#[0-9]+$`)
 
 // relevant: does obligation o count for property id?
 func relevant(o *Obligation, id string) bool {
+	// a function of this property that the engine could not process at all has decided nothing for ANY property it carries
+	if o.Kind == "engine" || o.Status == "error" {
+		return true
+	}
 	has := false
 	for _, t := range o.Tags {
 		if propTag.MatchString(t) {
@@ -147,6 +151,7 @@ func cmdCheck(args []string) {
 		writeEvidence(pc, *tier, seed, res, time.Since(start).Seconds(), 1, nil)
 		os.Exit(1)
 	}
+	currentVC = res.vc
 	known := readKnown()
 	violations := 0
 	var knownHit []string
